@@ -72,17 +72,18 @@ struct Scen
   std::map<long, int> libFd;           // library-side descriptor of connection / acceptor i
   std::map<long, int> peerFd;          // harness-side descriptor of connection i
   std::map<long, size_t> sentOff;      // bytes peer i sent so far
-  std::map<uint16_t, long> ordOfPort;  // peer address (as the library sees it) -> ordinal
   std::map<long, std::vector<long>> onev;
   std::vector<std::string> events;
   std::vector<std::future<void>> futs;
   std::thread::id stepper;
 
+  // every peer has its own loopback address (127.0.1.i = raw peer i, 127.0.2.i = listener of client i),
+  // so ordinals never depend on (reusable) port numbers
   std::string AddrOrd(Address const &a) const
   {
-    if(a.Host() != "127.0.0.1") return "?host";
-    auto it = ordOfPort.find(a.Port());
-    return it == ordOfPort.end() ? std::string("?") : std::to_string(it->second);
+    auto h = a.Host();
+    if(h.rfind("127.0.1.", 0) == 0 || h.rfind("127.0.2.", 0) == 0) return h.substr(8);
+    return "?host:" + h;
   }
 
   std::string T() const { return std::this_thread::get_id() == stepper ? " t=1" : " t=0"; }
@@ -143,12 +144,11 @@ struct Scen
     int lfd = ::socket(AF_INET, SOCK_STREAM, 0);
     sockaddr_in a{};
     a.sin_family = AF_INET;
-    a.sin_addr.s_addr = htonl(INADDR_LOOPBACK);
+    a.sin_addr.s_addr = htonl(0x7f000200u + static_cast<uint32_t>(i));
     ::bind(lfd, reinterpret_cast<sockaddr *>(&a), sizeof(a));
     ::listen(lfd, 4);
     uint16_t port = LocalPort(lfd);
-    ordOfPort[port] = i;
-    SocketTcp tcp(Address("127.0.0.1", std::to_string(port)));
+    SocketTcp tcp(Address("127.0.2." + std::to_string(i), std::to_string(port)));
     peerFd[i] = ::accept(lfd, nullptr, nullptr);
     NoDelay(peerFd[i]);
     ::close(lfd);
@@ -180,9 +180,8 @@ struct Scen
     int fd = ::socket(AF_INET, SOCK_STREAM, 0);
     sockaddr_in me{};
     me.sin_family = AF_INET;
-    me.sin_addr.s_addr = htonl(INADDR_LOOPBACK);
+    me.sin_addr.s_addr = htonl(0x7f000100u + static_cast<uint32_t>(i));
     ::bind(fd, reinterpret_cast<sockaddr *>(&me), sizeof(me));
-    ordOfPort[LocalPort(fd)] = i;
     sockaddr_in to{};
     to.sin_family = AF_INET;
     to.sin_addr.s_addr = htonl(INADDR_LOOPBACK);
